@@ -12,7 +12,7 @@ package fsim
 //@   props C17 C10(sweep)
 //@   sweep bounds,panic,make
 //@   requires @complete d.written >= d.length
-//@   requires @hash d.hash != nil
+//@   requires @hash d.hash != nil && !implements(d.hash, "fdo.fallibleHash")
 //@   callsites rename 1
 //@   callassert rename#1: @length d.written == d.length
 //@   callassert rename#1: @digest len(d.sha384) > 0 ==> bytes(d.sha384) == digest(absorbed(d.hash))
@@ -27,8 +27,14 @@ package fsim
 //@ func fsim.Download.receive
 //@   props C17 C10(sweep)
 //@   sweep bounds,panic,make
-//@   requires @hash d.hash != nil
-//@   invariant loop#1: d.hash != nil
+//@   callsites MultiWriter 1
+//@   callassert MultiWriter#1: @sinks len(arg0) == 2 && unwrap(arg0[0]) == d.temp && u(arg0[1]) == u(d.hash)
+//@   callassert Write#1: @chunk bytes(arg1) == bytes(chunk)
+//@   ensures @announce messageName != "data" ==> d.written == old(d.written) && u(d.temp) == old(u(d.temp))
+//@   ensures @keepdigest messageName == "name" || messageName == "length" ==> u(d.sha384) == old(u(d.sha384))
+//@   ensures @keeplength messageName == "name" || messageName == "sha-384" ==> d.length == old(d.length)
+//@   requires @hash d.hash != nil && !implements(d.hash, "fdo.fallibleHash")
+//@   invariant loop#1: d.hash != nil && !implements(d.hash, "fdo.fallibleHash")
 //@   callassert finalize#1: @complete d.written >= d.length
 
 //@ func fsim.Download.createTemp
@@ -39,7 +45,7 @@ package fsim
 //@ func fsim.UploadRequest.finalize
 //@   props C17 C10(sweep)
 //@   sweep bounds,panic,make
-//@   requires @hash u.hash != nil && u.temp != nil
+//@   requires @hash u.hash != nil && u.temp != nil && !implements(u.hash, "fdo.fallibleHash")
 //@   callsites Rename 1
 //@   callassert Rename#1: @length u.written <= u.length
 //@   callassert Rename#1: @digest bytes(u.sha384) == digest(absorbed(u.hash))
@@ -51,3 +57,21 @@ package fsim
 //@   callsites rename 1
 //@   callassert rename#1: @digest len(d.sha384) > 0 ==> bytes(d.sha384) == bytes(hashed)
 //@   callassert rename#1: @name len(d.name) > 0
+
+// an announced digest is only replaced by another "sha-384" message: a "name"
+// message leaves it alone (the owner sends sha-384 before name)
+//@ func fsim.Wget.receive
+//@   props C17 C10(sweep)
+//@   sweep bounds,panic,make
+//@   ensures @keepdigest messageName == "name" ==> u(d.sha384) == old(u(d.sha384))
+//@   ensures @keepname messageName == "sha-384" ==> u(d.name) == old(u(d.name))
+
+// ---- upload (device sends a file): every data message and the digest cover exactly
+// the bytes the latest Read delivered -------------------------------------------------------
+//@ func fsim.Upload.upload
+//@   props C17 C10(sweep)
+//@   sweep bounds,panic,make
+//@   callsites Read 1
+//@   callassert Write#1: @hashed bytes(arg1) == lastread(f)
+//@   callassert Encode#2: @sent bytes(unwrap(arg1)) == lastread(f)
+//@   callassert Encode#3: @digest bytes(unwrap(arg1)) == digest(absorbed(hash))
